@@ -8,12 +8,16 @@
                       V ::= (s xSTR) | (i N) | (b true|false)     PK ::= slice | (and K) | erased | with   (how the harness
                       presents the pairs; all first-wins over the list)      FAIL ::= - | N  (the recording writer fails on
                       callback N);  callbacks: T<text> | V<label>:<value> | F<label>:<value>:<formatted> | L<label>, comma separated
+    stream `c16_macro` : (macro IDX xSRC (props (xKEY V)…) (ext (xLABEL xFLAGS)…)) → `parts=<P,…> msg=<hex>`
+                      P ::= T<text> | H<label> | H<label>+ (has a formatter);  SRC = source text of the template literal of
+                      harness fixture IDX, between the quotes; the model recomputes parts and message from SRC
 -/
 import EmitModel.Base.Sexp
 import EmitModel.Model.Template
+import EmitModel.Model.TemplateMacro
 
 namespace EmitModel.Driver.C16
-open EmitModel EmitModel.Template
+open EmitModel EmitModel.Template EmitModel.TemplateMacro
 
 def fmt? : Sexp → Option (Option Nat)
   | .atom "-" => some none
@@ -125,7 +129,46 @@ def runEq (line : String) : String :=
     | none => "bad-op"
   | _ => "bad-op"
 
+def ext? : Sexp → Option (List (List Char × List Char))
+  | .list (.atom "ext" :: es) => es.mapM fun e => match e with
+    | .list [l, f] => do
+      let l ← l.str?
+      let f ← f.str?
+      pure (l.toList, f.toList)
+    | _ => none
+  | _ => none
+
+def showMPart : MPart → String
+  | .text t => "T" ++ hexOfBytes (utf8 t)
+  | .hole l f => "H" ++ hexOfBytes (utf8 l) ++ (if f.isSome then "+" else "")
+
+def runMacro (line : String) : String :=
+  match Sexp.parse line with
+  | some (.list [.atom "macro", idx, src, ps, ext]) =>
+    match idx.nat?, src.str?, props? ps, ext? ext with
+    | some _, some src, some props, some ext =>
+      match macroParts ext src.toList with
+      | none => "bad-op"      -- the model rejects the literal, yet the fixture compiled
+      | some mparts =>
+        let parts := toParts mparts
+        -- every formatter that will be applied must be inside the modelled subset of core::fmt
+        let supported := mparts.all fun p => match p with
+          | .hole l (some f) => match lookupFirst (utf8 l) props with
+            | some v => (applyFlags f v).isSome
+            | none => true
+          | _ => true
+        if !supported then "bad-op" else
+        let tbl : Nat → Val → List UInt8 := fun i v => ((flagsAt mparts i).bind fun f => applyFlags f v).getD []
+        let (msg, _) := render (stringWriter tbl) props parts []
+        let nh := mparts.countP fun p => match p with | .hole _ _ => true | _ => false
+        let nf := mparts.countP fun p => match p with | .hole _ (some _) => true | _ => false
+        let esc := src.toList.contains '\\'
+        let dbl := (src.splitOn "{{").length > 1 || (src.splitOn "}}").length > 1
+        s!"parts={",".intercalate (mparts.map showMPart)} msg={atomOfBytes msg}\tholes={min nh 3},fmt={min nf 2},dbl={dbl},bs={esc}"
+    | _, _, _, _ => "bad-op"
+  | _ => "bad-op"
+
 def streams : List (String × (String → String)) :=
-  [("c16_eq", runEq), ("c16_render", runRender)]
+  [("c16_eq", runEq), ("c16_render", runRender), ("c16_macro", runMacro)]
 
 end EmitModel.Driver.C16
